@@ -20,6 +20,16 @@
 //! state readers see: whatever is in memory is in the log and vice versa, also for writes the log
 //! refused. A sequential probe then issues one durable delete or put per contended key on the full
 //! log (acknowledged => visible; refused => counted) and the comparison is repeated.
+//! The `owned` rounds look at interference between DIFFERENT keys: 2-8 threads each own 1-24 keys
+//! of their own (all key classes; plain, Bloom-filter or durable store) and churn them - create,
+//! overwrite, delete, re-create, hundreds of times - while the others do the same with theirs, so
+//! that what is contended are the structures keys share (entity-id index, slab slots, shard maps,
+//! cache ring, filter, log). The sub-history of an owned key is sequential, hence the register
+//! oracle is exact at every moment: each get / exists / prefix scan of the owner must show exactly
+//! the owner's last completed write of that key (present with that value, or absent). At
+//! quiescence every key is audited, then every key is deleted (none may stay visible through get,
+//! exists or a scan) and created once more (each must hold its new value); durable rounds also
+//! compare the recovered with the live state.
 
 use common::lin::{self, Event, Op, Verdict};
 use common::*;
@@ -1280,6 +1290,365 @@ fn visibility_round(case_seed: u64, r: &mut Report) {
     r.eval(hash_combine(case_seed, reads_total ^ 0x7151), true);
 }
 
+/// What the owner of a key knows about it (owned rounds): nobody else ever writes the key, so after
+/// each of the owner's own completed calls the key's register value is known exactly.
+#[derive(Clone, Copy, PartialEq, Eq, Debug)]
+enum Own {
+    Absent,
+    Holds(u64),
+    /// a durable write reported an error: it may or may not have taken effect; not judged until
+    /// the next acknowledged write
+    Unknown,
+}
+
+fn class_tag(key: &str) -> &'static str {
+    if key.starts_with("emb:") {
+        "emb-key"
+    } else if key.starts_with("_cache:") {
+        "cache-key"
+    } else {
+        "metadata-key"
+    }
+}
+
+/// the class prefix of an owned-round key ("emb:o3_1_7f" -> "emb:o")
+fn owned_prefix(key: &str) -> String {
+    match key.find(':') {
+        Some(i) => format!("{}o", &key[..=i]),
+        None => String::new(),
+    }
+}
+
+/// Judge one point read (get / exists) of an owned key against what its owner knows.
+/// `got`: None = absent, Some(Ok(wid)) = holds that write, Some(Err(why)) = value no write produced;
+/// exists() reports presence only: `Some(Ok(u64::MAX))`.
+fn judge_owned_read(op: &str, when: &str, key: &str, own: Own, got: Option<Result<u64, String>>, out: &mut Vec<(String, String)>) -> bool {
+    let tag = class_tag(key);
+    let cache = tag == "cache-key";
+    match (own, got) {
+        (Own::Unknown, _) => return false,
+        (_, Some(Err(why))) => out.push((
+            format!("owned-keys:{}-returns-value-no-single-write-produced:{}", op, tag),
+            format!("{}: {}({}) returned a value that no single write produced: {} (only its owner writes this key; what the owner last wrote: {:?})", when, op, key, trunc(&why, 200), own),
+        )),
+        (Own::Absent, None) => {}
+        (Own::Absent, Some(Ok(w))) => out.push((
+            format!("owned-keys:{}-finds-key-after-its-delete-completed:{}", op, tag),
+            format!(
+                "{}: {}({}) found the key{} although the last completed write of the key - only its owner writes it - was a delete (or it was never written)",
+                when, op, key, if w == u64::MAX { String::new() } else { format!(" (value of write {})", w) }
+            ),
+        )),
+        // a cache may drop an entry at any moment
+        (Own::Holds(_), None) if cache => {}
+        (Own::Holds(w), None) => out.push((
+            format!("owned-keys:{}-misses-key-after-its-put-completed:{}", op, tag),
+            format!("{}: {}({}) did not find the key although the last completed write of the key - only its owner writes it - was put of write {}", when, op, key, w),
+        )),
+        (Own::Holds(w), Some(Ok(g))) if g == w || g == u64::MAX => {}
+        (Own::Holds(w), Some(Ok(g))) => out.push((
+            format!("owned-keys:{}-returns-other-write-than-the-last-completed-put:{}", op, tag),
+            format!("{}: {}({}) returned write {} but the last completed write of the key - only its owner writes it - was put of write {}", when, op, key, g, w),
+        )),
+    }
+    true
+}
+
+/// Judge one prefix scan against what the owner(s) know about the keys in `mine`.
+fn judge_owned_scan(when: &str, prefix: &str, listed: &[String], mine: &[(String, Own)], known: &std::collections::HashSet<String>, out: &mut Vec<(String, String)>) -> u64 {
+    let mut seen: std::collections::HashSet<&String> = std::collections::HashSet::new();
+    for x in listed {
+        if !seen.insert(x) {
+            out.push(("scan:duplicate-key".into(), format!("{}: scan({:?}) listed {} twice", when, prefix, x)));
+        }
+        if !known.contains(x) {
+            out.push(("scan:unknown-key".into(), format!("{}: scan({:?}) listed {} which nobody wrote", when, prefix, x)));
+        }
+    }
+    let mut judged = 0;
+    for (k, own) in mine {
+        if !k.starts_with(prefix) || *own == Own::Unknown {
+            continue;
+        }
+        judged += 1;
+        let tag = class_tag(k);
+        match (own, seen.contains(k)) {
+            (Own::Absent, true) => out.push((
+                format!("owned-keys:scan-lists-key-after-its-delete-completed:{}", tag),
+                format!("{}: scan({:?}) listed {} although the last completed write of the key - only its owner writes it - was a delete (or it was never written)", when, prefix, k),
+            )),
+            (Own::Holds(w), false) if tag != "cache-key" => out.push((
+                format!("owned-keys:scan-misses-key-after-its-put-completed:{}", tag),
+                format!("{}: scan({:?}) did not list {} although the last completed write of the key - only its owner writes it - was put of write {}", when, prefix, k, w),
+            )),
+            _ => {}
+        }
+    }
+    judged
+}
+
+/// Interference between DIFFERENT keys. Every thread owns its own small set of keys (all key
+/// classes; nobody else touches them) and churns them - create, overwrite, delete, re-create -
+/// while the other threads do the same with theirs on the same store. The sub-history of every key
+/// is sequential, so the register oracle is exact at every moment: each of the owner's reads (get,
+/// exists, the key's presence in a prefix scan) must show exactly the owner's last completed
+/// write. What is contended are the structures that keys share (entity-id index, slab slots,
+/// shard maps, cache ring, Bloom filter, log). At quiescence all keys are audited, then all are
+/// deleted (nothing may remain visible) and re-created once (each must hold its new value);
+/// durable rounds finally compare the recovered with the live state.
+fn owned_round(case_seed: u64, r: &mut Report, args: &Args) {
+    let mut rng = Rng::new(case_seed);
+    let threads = 2 + rng.below(7);
+    let keys_per_thread = *rng.pick(&[1usize, 2, 3, 4, 4, 8, 24]);
+    let thorough = !args.quick();
+    let ops_per_thread = if thorough { 300 + rng.below(2_700) } else { 150 + rng.below(750) };
+    // seeded yields move the points at which the threads' operations interleave
+    let yield_one_in = *rng.pick(&[0u32, 4, 16, 64]);
+    // the classes of the round: embedding keys only (entity index + slab + metadata per write),
+    // keys of one metadata shard, or everything mixed
+    let classes: &[&str] = match rng.below(5) {
+        0 | 1 => &["emb:"],
+        2 => &["k:"],
+        _ => &["emb:", "emb:", "emb:", "k:", "node:", "table:", "edge:", "_cache:"],
+    };
+    // store flavour: plain, with a (small) Bloom filter, or with the durable log
+    let flavour = rng.weighted(&[60, 15, 25]);
+    let scratch = args.scratch_dir("c11o");
+    let wal_path = scratch.join("c11o.wal");
+    let store = match flavour {
+        1 => TensorStore::with_bloom_filter(64 + rng.below(2_000), 0.01),
+        2 => match TensorStore::open_durable(&wal_path, wal_cfg("manual")) {
+            Ok(s) => s,
+            Err(e) => {
+                r.inconclusive(&format!("open_durable: {}", e));
+                return;
+            }
+        },
+        _ => TensorStore::new(),
+    };
+    let durable = flavour == 2;
+    let store = Arc::new(store);
+    let plan: Vec<Vec<String>> = (0..threads)
+        .map(|t| (0..keys_per_thread).map(|i| format!("{}o{}_{}_{:x}", rng.pick(classes), t, i, rng.below(1 << 16))).collect())
+        .collect();
+    let known: Arc<std::collections::HashSet<String>> = Arc::new(plan.iter().flatten().cloned().collect());
+    let clock = Arc::new(AtomicU64::new(1));
+    let barrier = Arc::new(Barrier::new(threads));
+    let flavour_name = ["plain", "with Bloom filter", "durable (manual sync)"][flavour];
+    let what = format!("[{} threads x {} own keys x {} operations, classes {:?}, store {}]", threads, keys_per_thread, ops_per_thread, classes, flavour_name);
+
+    struct ThreadOut {
+        model: Vec<(String, Own)>,
+        anomalies: Vec<(String, String)>,
+        ops: BTreeMap<&'static str, u64>,
+        order: Vec<(u64, u8, u16)>,
+        interleaved: u64,
+    }
+    let handles: Vec<_> = (0..threads)
+        .map(|t| {
+            let (store, clock, barrier, known) = (store.clone(), clock.clone(), barrier.clone(), known.clone());
+            let mut model: Vec<(String, Own)> = plan[t].iter().map(|k| (k.clone(), Own::Absent)).collect();
+            let mut rng = Rng::new(case_seed ^ (t as u64 + 3).wrapping_mul(0x6C62_272E));
+            std::thread::spawn(move || {
+                let mut anomalies: Vec<(String, String)> = Vec::new();
+                let mut ops: BTreeMap<&'static str, u64> = BTreeMap::new();
+                let mut order: Vec<(u64, u8, u16)> = Vec::new();
+                let mut bump = |name: &'static str, n: u64| *ops.entry(name).or_insert(0) += n;
+                let (mut ctr, mut interleaved, mut last_tick) = (0u64, 0u64, 0u64);
+                let mut created_before = vec![false; model.len()];
+                // a write is followed by a read of the same key every other time
+                let mut probe: Option<usize> = None;
+                barrier.wait();
+                for opno in 0..ops_per_thread {
+                    let ki = probe.unwrap_or_else(|| rng.below(model.len()));
+                    let (key, own) = (model[ki].0.clone(), model[ki].1);
+                    // what to do depends on the key's state, so that creations and deletions alternate
+                    let kind = if probe.take().is_some() {
+                        2 + rng.below(3)
+                    } else {
+                        match own {
+                            Own::Holds(_) => rng.weighted(&[15, 35, 20, 15, 15]),
+                            _ => rng.weighted(&[70, 0, 10, 10, 10]),
+                        }
+                    };
+                    if yield_one_in > 0 && rng.chance(1, yield_one_in) {
+                        std::thread::yield_now();
+                    }
+                    let tick = clock.fetch_add(1, Ordering::SeqCst);
+                    if opno > 0 && tick != last_tick + 1 {
+                        interleaved += 1;
+                    }
+                    last_tick = tick;
+                    order.push((tick, kind as u8, (t * 64 + ki % 64) as u16));
+                    let when = format!("thread {} operation {}", t, opno);
+                    match kind {
+                        0 => {
+                            ctr += 1;
+                            let shape = shapes_for(&key, &mut rng);
+                            let wid = wid_for(t, ctr, shape);
+                            let val = make_value(wid, shape);
+                            let res = if durable { store.put_durable(key.clone(), val) } else { store.put(key.clone(), val) };
+                            bump("put", 1);
+                            if !matches!(own, Own::Holds(_)) {
+                                bump("creations", 1);
+                            }
+                            model[ki].1 = if res.is_ok() { Own::Holds(wid) } else { Own::Unknown };
+                            created_before[ki] = true;
+                            if rng.bool() {
+                                probe = Some(ki);
+                            }
+                        }
+                        1 => {
+                            let res = if durable { store.delete_durable(&key) } else { store.delete(&key) };
+                            bump("delete", 1);
+                            // the Ok/NotFound result of a delete is not judged; a completed delete leaves
+                            // the key absent (a durable delete that reported an error: not judged)
+                            model[ki].1 = if res.is_err() && durable && own != Own::Absent { Own::Unknown } else { Own::Absent };
+                            if rng.bool() {
+                                probe = Some(ki);
+                            }
+                        }
+                        2 => {
+                            let got = store.get(&key).ok().map(|d| decode_value(&d));
+                            bump("get", 1);
+                            if judge_owned_read("get", &when, &key, own, got, &mut anomalies) {
+                                bump("reads_checked", 1);
+                                if own == Own::Absent && created_before[ki] {
+                                    bump("reads_of_deleted_own_key", 1);
+                                }
+                            }
+                        }
+                        3 => {
+                            let got = if store.exists(&key) { Some(Ok(u64::MAX)) } else { None };
+                            bump("exists", 1);
+                            if judge_owned_read("exists", &when, &key, own, got, &mut anomalies) {
+                                bump("reads_checked", 1);
+                                if own == Own::Absent && created_before[ki] {
+                                    bump("reads_of_deleted_own_key", 1);
+                                }
+                            }
+                        }
+                        _ => {
+                            let prefix = owned_prefix(&key);
+                            let listed = store.scan(&prefix);
+                            bump("scan", 1);
+                            let judged = judge_owned_scan(&when, &prefix, &listed, &model, &known, &mut anomalies);
+                            bump("reads_checked", judged);
+                            let deleted = model.iter().zip(created_before.iter()).filter(|((k, o), c)| **c && *o == Own::Absent && k.starts_with(&prefix)).count();
+                            bump("reads_of_deleted_own_key", deleted as u64);
+                        }
+                    }
+                    if anomalies.len() >= 3 {
+                        break;
+                    }
+                }
+                ThreadOut { model, anomalies, ops, order, interleaved }
+            })
+        })
+        .collect();
+    let replay = json!({"part": "owned", "case_seed": case_seed});
+    let mut model: Vec<(String, Own)> = Vec::new();
+    let mut order: Vec<(u64, u8, u16)> = Vec::new();
+    let (mut interleaved, mut anomalies_seen) = (0u64, 0usize);
+    for h in handles {
+        let o = h.join().expect("worker");
+        model.extend(o.model);
+        order.extend(o.order);
+        interleaved += o.interleaved;
+        for (k, v) in &o.ops {
+            r.count(&format!("owned_keys_{}", k), *v);
+        }
+        for (sig, d) in o.anomalies.into_iter().take(3) {
+            anomalies_seen += 1;
+            r.violation(sig, format!("{} {}", d, what), replay.clone());
+        }
+    }
+    r.count("owned_keys_rounds", 1);
+    r.count("owned_keys_ops_interleaved_with_other_threads", interleaved);
+    if anomalies_seen > 0 {
+        return;
+    }
+    // -- quiescent audit (single thread): every key, through get, exists and the scans
+    let prefixes: std::collections::BTreeSet<String> = model.iter().map(|(k, _)| owned_prefix(k)).collect();
+    let audit = |when: &str, model: &[(String, Own)], r: &mut Report| -> bool {
+        let mut out: Vec<(String, String)> = Vec::new();
+        for (k, own) in model {
+            let got = store.get(k).ok().map(|d| decode_value(&d));
+            judge_owned_read("get", when, k, *own, got, &mut out);
+            let got = if store.exists(k) { Some(Ok(u64::MAX)) } else { None };
+            judge_owned_read("exists", when, k, *own, got, &mut out);
+            r.count("owned_keys_quiescent_keys_audited", 1);
+        }
+        for p in &prefixes {
+            let listed = store.scan(p);
+            judge_owned_scan(when, p, &listed, model, &known, &mut out);
+        }
+        for (sig, d) in out.iter().take(3) {
+            r.violation(sig.replacen("owned-keys:", "owned-keys:quiescent:", 1), format!("{} {}", d, what), replay.clone());
+        }
+        out.is_empty()
+    };
+    if !audit("at quiescence after the concurrent phase", &model, r) {
+        return;
+    }
+    // -- teardown: delete every key, nothing may remain visible
+    for (k, own) in model.iter_mut() {
+        let res = if durable { store.delete_durable(k) } else { store.delete(k) };
+        *own = if res.is_err() && durable && *own != Own::Absent { Own::Unknown } else { Own::Absent };
+    }
+    if !audit("single thread, after deleting every key of the round", &model, r) {
+        return;
+    }
+    // -- and every key can be created again
+    for (i, (k, own)) in model.iter_mut().enumerate() {
+        let shape = shapes_for(k, &mut rng);
+        let wid = wid_for(8, i as u64 + 1, shape);
+        let res = if durable { store.put_durable(k.clone(), make_value(wid, shape)) } else { store.put(k.clone(), make_value(wid, shape)) };
+        *own = if res.is_ok() { Own::Holds(wid) } else { Own::Unknown };
+    }
+    if !audit("single thread, after deleting and re-creating every key of the round", &model, r) {
+        return;
+    }
+    if durable {
+        let _ = store.sync();
+        let live = view(&store);
+        drop(store);
+        match TensorStore::recover(&wal_path, &wal_cfg("manual"), None) {
+            Ok(rec) => {
+                let v = view(&rec);
+                r.count("owned_keys_durable_rounds_recovered", 1);
+                if v != live {
+                    r.violation(
+                        "durable-order:recovered-state-differs-from-last-seen:owned-keys",
+                        format!("after the round the log replays to a different state than memory held (- only in memory, + only recovered, ~ differs): {} {}", trunc(&view_diff(&live, &v), 500), what),
+                        replay.clone(),
+                    );
+                    return;
+                }
+            }
+            Err(e) => {
+                r.violation("durable-order:recover-failed:owned-keys", format!("recover after the round failed: {} {}", e, what), replay.clone());
+                return;
+            }
+        }
+    }
+    order.sort();
+    let mut h = 0x0B5Eu64;
+    for (_, kind, who) in &order {
+        h = hash_combine(h, (*who as u64) << 8 | *kind as u64);
+    }
+    // non-trivial: operations of different threads really interleaved
+    let nontrivial = interleaved as usize * 10 >= order.len();
+    r.eval(h, nontrivial);
+    if nontrivial {
+        r.count("owned_keys_rounds_with_interleaved_threads", 1);
+    }
+    if r.want_sample() && nontrivial && rng.chance(1, 30) {
+        r.sample(json!({"part": "owned", "threads": threads, "own_keys_per_thread": keys_per_thread, "ops_per_thread": ops_per_thread, "classes": classes,
+            "store": flavour_name, "ops_interleaved": interleaved, "keys_head": model.iter().take(4).map(|(k, o)| format!("{} {:?}", k, o)).collect::<Vec<_>>()}));
+    }
+}
+
 /// Engine layered on the store: VectorEngine single-key operations on 1-3 contended keys.
 /// Every stored vector is uniform (all elements = write id), so a torn or mixed read is visible.
 fn engine_round(case_seed: u64, r: &mut Report) {
@@ -1400,6 +1769,7 @@ fn main() {
                 "fresh" => fresh_keys_round(s, &mut total),
                 "bigscan" => bigscan_round(s, &mut total),
                 "visibility" => visibility_round(s, &mut total),
+                "owned" => owned_round(s, &mut total, &args),
                 "sequential" => sequential_round(s, &mut total),
                 _ => stress_round(s, &mut total, &args),
             }
@@ -1455,6 +1825,12 @@ fn main() {
             let rep = par_cases(outer, args.seed ^ 0x71, n, args.budget(15, 200), |_i, s, r| visibility_round(s, r));
             total.merge(rep);
         }
+        if part == "all" || part == "owned" {
+            let n = args.by_tier(400u64, 12_000u64);
+            let a2 = args.clone();
+            let rep = par_cases(outer, args.seed ^ 0x0D, n, args.budget(12, 240), move |_i, s, r| owned_round(s, r, &a2));
+            total.merge(rep);
+        }
         if part == "all" || part == "sequential" {
             let n = args.by_tier(300u64, 5_000u64);
             let rep = par_cases(2, args.seed ^ 0x99, n, args.budget(20, 120), |_i, s, r| sequential_round(s, r));
@@ -1463,17 +1839,18 @@ fn main() {
     }
     let meta = Meta {
         property: "C11",
-        rule: "stress round = one real TensorStore, 2-8 OS threads x 6-19 operations on 1-4 contended keys of classes plain/emb(384-dim slab vector, other dim, none)/node/table/edge/_cache, non-durable or durable (manual / immediate sync), half of the rounds with seeded jitter at the put_durable/delete_durable hook points; every call recorded at the client boundary (atomic tick before and after); values self-describing (write id in every field and vector element). Oracles: value integrity per read, Wing-Gong linearizability per key (scan decomposed per key), recovered-state (latest checkpoint + log; durable rounds take checkpoints concurrently with the writers) == live state after quiescence. Distinct = hash of the observed call order (thread, op, key by call tick); non-trivial = at least two operations of different threads on one key overlapped in time. parked rounds = the deterministic two-writer schedule at put_durable:after_log; sync rounds = 1-4 durable writes return (manual sync mode), another writer parks at put_durable:after_log, sync() is called: the log file as it is right after sync() returned Ok must recover every earlier write; walfault rounds = a durable store whose log refuses records (max_size_bytes 300-10300 bytes, auto_rotate off; manual / immediate sync), 1-4 contended keys of the logged classes plain/emb/node/table/edge, half of them with 1-160 padding characters in the name so that record sizes differ; optional prefill (+ checkpoint), then 2-8 threads x 6-17 mixed operations (checkpoints concurrent in half of the phases) while the log fills, filler writes of other keys until one is refused (3 rounds in 4), the same concurrent workload on the full log, then a single-thread probe issuing one delete_durable / put_durable per contended key. Oracles: per-key linearizability of each phase from the register value read at the preceding quiescent point, where every write that returned an error (put or delete) is an OPEN operation that may or may not have taken effect; an acknowledged probe write is visible to the next read; at the quiescent point after each phase and after the probe the files a crash would leave (copy of log + latest checkpoint; finally the files themselves after dropping the store) recover to exactly the state readers see - so a refused write that is in memory but not in the log, or in the log but not in memory, is a violation; non-trivial = at least one write was refused and operations of different threads overlapped on a key; sequential rounds = single-thread register semantics; fresh rounds = 3-8 threads creating 4-15 (on a store with a small Bloom filter: 40-119) distinct new keys each at the same instant, every key read back at quiescence; one stress round in six (non-durable) uses values with 2500 padding fields so that reads fall between the steps of a put; bigscan rounds = 1-3 writers toggling pairs of keys that lie >1000 keys apart under one prefix of 2200-3600 passive keys (first key put first and deleted last, every call returning before the next starts) against 1-3 scanners of the whole prefix: a scan must never list the second key of a pair without the first, nor miss a passive key; visibility rounds = one writer alternating put (two thirds of the rounds with 2500-field values) / delete on one key of class emb/plain/node/cache, 1-3 observers reading its presence through scan, exists and get in sequence: two consecutive reads of one observer may differ only if a put resp. delete was in progress or started between them (writer calls counted before invocation and after return); engine rounds = the same history check on VectorEngine::{store_embedding,get_embedding,delete_embedding,exists} over one shared store.",
+        rule: "stress round = one real TensorStore, 2-8 OS threads x 6-19 operations on 1-4 contended keys of classes plain/emb(384-dim slab vector, other dim, none)/node/table/edge/_cache, non-durable or durable (manual / immediate sync), half of the rounds with seeded jitter at the put_durable/delete_durable hook points; every call recorded at the client boundary (atomic tick before and after); values self-describing (write id in every field and vector element). Oracles: value integrity per read, Wing-Gong linearizability per key (scan decomposed per key), recovered-state (latest checkpoint + log; durable rounds take checkpoints concurrently with the writers) == live state after quiescence. Distinct = hash of the observed call order (thread, op, key by call tick); non-trivial = at least two operations of different threads on one key overlapped in time. parked rounds = the deterministic two-writer schedule at put_durable:after_log; sync rounds = 1-4 durable writes return (manual sync mode), another writer parks at put_durable:after_log, sync() is called: the log file as it is right after sync() returned Ok must recover every earlier write; walfault rounds = a durable store whose log refuses records (max_size_bytes 300-10300 bytes, auto_rotate off; manual / immediate sync), 1-4 contended keys of the logged classes plain/emb/node/table/edge, half of them with 1-160 padding characters in the name so that record sizes differ; optional prefill (+ checkpoint), then 2-8 threads x 6-17 mixed operations (checkpoints concurrent in half of the phases) while the log fills, filler writes of other keys until one is refused (3 rounds in 4), the same concurrent workload on the full log, then a single-thread probe issuing one delete_durable / put_durable per contended key. Oracles: per-key linearizability of each phase from the register value read at the preceding quiescent point, where every write that returned an error (put or delete) is an OPEN operation that may or may not have taken effect; an acknowledged probe write is visible to the next read; at the quiescent point after each phase and after the probe the files a crash would leave (copy of log + latest checkpoint; finally the files themselves after dropping the store) recover to exactly the state readers see - so a refused write that is in memory but not in the log, or in the log but not in memory, is a violation; non-trivial = at least one write was refused and operations of different threads overlapped on a key; sequential rounds = single-thread register semantics; fresh rounds = 3-8 threads creating 4-15 (on a store with a small Bloom filter: 40-119) distinct new keys each at the same instant, every key read back at quiescence; one stress round in six (non-durable) uses values with 2500 padding fields so that reads fall between the steps of a put; bigscan rounds = 1-3 writers toggling pairs of keys that lie >1000 keys apart under one prefix of 2200-3600 passive keys (first key put first and deleted last, every call returning before the next starts) against 1-3 scanners of the whole prefix: a scan must never list the second key of a pair without the first, nor miss a passive key; visibility rounds = one writer alternating put (two thirds of the rounds with 2500-field values) / delete on one key of class emb/plain/node/cache, 1-3 observers reading its presence through scan, exists and get in sequence: two consecutive reads of one observer may differ only if a put resp. delete was in progress or started between them (writer calls counted before invocation and after return); owned rounds = 2-8 threads, each the only writer of its own 1-24 keys (classes: emb only / one metadata shard / emb+plain+node+table+edge+cache mixed; store plain, with a small Bloom filter, or durable with manual sync; seeded yields), 150-899 (thorough 300-2999) state-driven operations per thread on its own keys (absent: mostly put; present: delete, overwrite or read; every other write is followed by a read of the same key through get, exists or a scan of the class prefix) while the other threads do the same with theirs: every read of the owner must show exactly the owner's last completed write of the key (get: that value; exists / scan: present iff the last write was a put; a cache key may be absent at any time), scans list no key twice and no key nobody wrote; then single-threaded: audit of every key through get, exists and the scans, delete of every key (none visible afterwards), re-creation of every key (each holds its new value), durable rounds: recovered == live state; distinct = hash of the observed order of (thread, key, op) by call tick, non-trivial = at least 10 % of the operations were invoked while operations of other threads had been invoked since the thread's previous one; engine rounds = the same history check on VectorEngine::{store_embedding,get_embedding,delete_embedding,exists} over one shared store.",
         assumptions: vec![
             "the Ok/NotFound result of delete is not judged (Delete is modelled as a blind write); a failed delete records no event".into(),
             "in stress rounds a prefix scan is judged per key (each listed/absent contended key is a read inside the scan's interval); its atomicity across keys is judged in the bigscan rounds, for keys of one class (a prefix spanning several slabs - metadata, entity index, cache ring - is assembled from one atomic listing per slab)".into(),
             "TensorStore::len/ops statistics are never part of an oracle".into(),
+            "owned rounds: a key has a single writer thread, so the order of its operations is the program order of that thread and reads are judged exactly; also there the Ok/NotFound result of a delete is not judged - after a completed delete the key is absent whatever the call returned; a durable write that reported an error leaves its key unjudged until the next acknowledged write; _cache: keys may be absent at any time (eviction) but never hold another value than the last put".into(),
             "walfault rounds: the only log fault injected is the size limit the log reports itself (WalConfig::max_size_bytes with auto_rotate = false); a write that returned an error is not required to be invisible in memory, only log and memory must agree at quiescence; rotation (auto_rotate = true) is C02's subject and not used here".into(),
         ],
         floors: if args.replay.is_some() || part != "all" {
             vec![("evaluations", 5)]
         } else {
-            vec![("events_recorded", 5_000), ("rounds_with_overlapping_ops", 100), ("key_histories_linearizable", 200), ("parked_at_after_log", 5), ("sync_rounds", 10), ("durable_rounds_recovered", 20), ("durable_rounds_with_concurrent_checkpoint", 10), ("sequential_reads_checked", 500), ("engine_key_histories_linearizable", 100), ("fresh_keys_read_back", 2_000), ("fresh_keys_read_back_through_bloom_filter", 5_000), ("bigscan_scans", 2_000), ("visibility_reads", 20_000), ("visibility_presence_changes_seen", 500), ("bigscan_scans_that_saw_a_half_done_pair", 20), ("walfault_crash_images_compared", 100), ("walfault_writes_refused", 500), ("walfault_probe_deletes_of_present_key_refused", 20), ("walfault_probe_puts_refused", 20), ("walfault_key_histories_linearizable", 150)]
+            vec![("events_recorded", 5_000), ("rounds_with_overlapping_ops", 100), ("key_histories_linearizable", 200), ("parked_at_after_log", 5), ("sync_rounds", 10), ("durable_rounds_recovered", 20), ("durable_rounds_with_concurrent_checkpoint", 10), ("sequential_reads_checked", 500), ("engine_key_histories_linearizable", 100), ("fresh_keys_read_back", 2_000), ("fresh_keys_read_back_through_bloom_filter", 5_000), ("bigscan_scans", 2_000), ("visibility_reads", 20_000), ("visibility_presence_changes_seen", 500), ("bigscan_scans_that_saw_a_half_done_pair", 20), ("walfault_crash_images_compared", 100), ("walfault_writes_refused", 500), ("walfault_probe_deletes_of_present_key_refused", 20), ("walfault_probe_puts_refused", 20), ("walfault_key_histories_linearizable", 150), ("owned_keys_reads_checked", 100_000), ("owned_keys_creations", 20_000), ("owned_keys_reads_of_deleted_own_key", 20_000), ("owned_keys_ops_interleaved_with_other_threads", 5_000), ("owned_keys_rounds_with_interleaved_threads", 30), ("owned_keys_quiescent_keys_audited", 3_000), ("owned_keys_durable_rounds_recovered", 10)]
         },
         exhaustive: false,
     };
